@@ -42,7 +42,7 @@ def strategy(tier):
     asyncc = st.builds(lambda spas, f, t, j, s, again: dict({"k": "async", "spas": spas, "filter": f, "target": t, "jitter": j, "suspend": s},
                                                             **({"again": again} if again else {})),
                        st.lists(spa, max_size=6, unique_by=lambda s: s[0]), flt, st.integers(0, 5), jitter,
-                       st.lists(st.sampled_from([0.0, 0.0, 0.3, 0.6, 1.5]), max_size=4), st.sampled_from([0, 0, 0, 1, 2, 3]))
+                       st.lists(st.sampled_from([0.0, 0.0, 0.3, 0.6, 1.5, 5.0, 12.0]), max_size=4), st.sampled_from([0, 0, 0, 1, 2, 3]))
     find = st.one_of(st.none(), st.tuples(st.just("id"), st.integers(0, 6), st.sampled_from(["str", "bytes"])).map(list), st.just(["ip"]))
     sync = st.builds(lambda seq, f: dict({"k": "sync", "seq": seq}, **({"find": f} if f else {})),
                      st.lists(st.tuples(st.integers(0, 5), st.sampled_from(NAMES)).map(list), min_size=1, max_size=10), find)
